@@ -43,6 +43,12 @@ type Engine struct {
 	pathData  map[string]interface{} // per-path scratch for stubs
 	vecPos    int
 	loopCount map[*ssa.BasicBlock]int
+	elemOf    map[*Value]elemRef
+}
+
+type elemRef struct {
+	arr []Value
+	i   int
 }
 
 type pathAbort struct{ why string }
@@ -59,7 +65,7 @@ type frame struct {
 }
 
 func newEngine(prog *ssa.Program) *Engine {
-	return &Engine{prog: prog, globals: map[*ssa.Global]*Value{}, FuncsSeen: map[string]bool{}, StubsSeen: map[string]bool{}}
+	return &Engine{prog: prog, globals: map[*ssa.Global]*Value{}, FuncsSeen: map[string]bool{}, StubsSeen: map[string]bool{}, elemOf: map[*Value]elemRef{}, pathData: map[string]interface{}{}}
 }
 
 func (e *Engine) resetRun() {
@@ -80,6 +86,7 @@ func (e *Engine) beginPath() {
 	e.axioms = nil
 	e.aesSeen = nil
 	e.pathData = map[string]interface{}{}
+	e.elemOf = map[*Value]elemRef{}
 	e.vecPos = 0
 	e.depth = 0
 	e.curPanicFrame = nil
@@ -511,9 +518,11 @@ func (e *Engine) step(fr *frame, in ssa.Instruction) {
 			a := (*x).(Array)
 			i := e.index(idx, len(a))
 			fr.env[in] = &a[i]
+			e.elemOf[&a[i]] = elemRef{[]Value(a), i}
 		case Slice:
 			i := e.index(idx, len(x.a))
 			fr.env[in] = &x.a[i]
+			e.elemOf[&x.a[i]] = elemRef{x.a[:cap(x.a)], i}
 		default:
 			unsupported("indexaddr %T", x)
 		}
@@ -734,6 +743,30 @@ func (e *Engine) unop(fr *frame, in *ssa.UnOp) Value {
 	return nil
 }
 
+func isSymbolicKey(v Value) bool {
+	switch x := v.(type) {
+	case Term:
+		return !x.IsConst()
+	case SymStr:
+		return true
+	case Iface:
+		return x.T != nil && isSymbolicKey(x.V)
+	case Array:
+		for _, el := range x {
+			if isSymbolicKey(el) {
+				return true
+			}
+		}
+	case Struct:
+		for _, el := range x {
+			if isSymbolicKey(el) {
+				return true
+			}
+		}
+	}
+	return false
+}
+
 func mapKey(v Value) interface{} {
 	switch x := v.(type) {
 	case Term:
@@ -823,7 +856,33 @@ func (e *Engine) lookup(in *ssa.Lookup, x, idx Value) Value {
 	case *MapV:
 		var v Value
 		ok := false
-		if x != nil {
+		if x != nil && isSymbolicKey(idx) {
+			// symbolic key into a concrete-key map: fork over the keys it can equal, plus "absent"
+			var cands []interface{}
+			var conds []Term
+			none := Bool(true)
+			for _, kk := range x.ord {
+				if _, live := x.m[kk]; !live {
+					continue
+				}
+				c := e.equal(x.keys[kk], idx)
+				if c.False() {
+					continue
+				}
+				cands = append(cands, kk)
+				conds = append(conds, c)
+				none = And(none, Not(c))
+			}
+			i := e.choose(len(cands)+1, func(i int) Term {
+				if i == 0 {
+					return none
+				}
+				return conds[i-1]
+			})
+			if i > 0 {
+				v, ok = x.m[cands[i-1]], true
+			}
+		} else if x != nil {
 			v, ok = x.m[mapKey(idx)]
 		}
 		if !ok {
